@@ -307,7 +307,8 @@ func c14Fix(c *ctx) {
 				c.emit(obj{"ev": "C14Work", "y": d / 10000, "rows": rows})
 			}
 		}
-		if i%6 == 0 {
+		if every := map[bool]int{false: 6, true: 30}[c.tier == "thorough"]; i%every == 0 {
+			// (the thorough tier replays 55 times as many behaviours; the epilogue does not depend on the behaviour before it)
 			c14NamesEpilogue(c, i, len(parts))
 		}
 	}
